@@ -224,6 +224,15 @@ def do_op(op, env):
         b = P.CalendarSystem.for_id(op[5])
         d = P.LocalDate(op[2], op[3], op[4], a).with_calendar(b)
         return [d.year, d.month, d.day, int(d.day_of_week)], None
+    if k == "zis":
+        # every interval of a zone between two instants: many lookups in neighbouring and distant periods within one query
+        zone = P.DateTimeZoneProviders.tzdb[op[1]]
+        out = []
+        for zi in zone.get_zone_intervals(start=_inst(op[2]), end=_inst(op[3])):
+            out.append([zi.name, _ns(zi.start) if zi.has_start else None, zi.wall_offset.seconds])
+            if len(out) > 400:
+                break
+        return [len(out), zlib.crc32(json.dumps(out).encode())], None
     if k in ("zi", "zoff", "inzone", "ziu"):
         zone = P.DateTimeZoneProviders.tzdb[op[1]]
         inst = _inst(op[2])
@@ -570,6 +579,11 @@ def build_pool(master_seed, scale=1.0):
                     if -4371222 * NS_DAY <= ns <= 2932896 * NS_DAY:
                         ops.append([rng.choice(["zi", "zi", "zoff", "inzone"]), rng.choice(names), ns])
             pool["zone"][zid].append(ops)
+    for zid in TZ_IDS:
+        for _ in range(2):
+            a = rng.randrange(-3000, 3000) * 32 * NS_DAY
+            span = rng.choice([400, 4000, 20000]) * NS_DAY
+            pool["zone"][zid][rng.randrange(len(pool["zone"][zid]))].append(["zis", zid, a, a + span])
     dbl = list(_DOUBLE)
     rng.shuffle(dbl)
     for zid, t1, t2 in dbl[: int(10 * scale)]:
@@ -1060,7 +1074,7 @@ def gen_run(seed):
         warm = rng.sample(["utc", "cal", "zones", "cultures", "iso"], rng.choice([1, 2, 4]))
     # loading the tz database under the tracer costs ~0.4M steps per thread: keep the cold-provider race to a minority of
     # runs, and to few threads
-    uses_tzdb = any(op[0] in ("zi", "zoff", "inzone", "tz", "tznone", "tzids", "prov", "local", "winmap") for p in progs for op in p)
+    uses_tzdb = any(op[0] in ("zi", "zoff", "inzone", "tz", "tznone", "tzids", "prov", "local", "winmap", "zis") for p in progs for op in p)
     if uses_tzdb and (rng.random() < 0.85 or nthreads > 4):
         warm.append("prov")
     spec["prewarm"] = warm
@@ -1093,7 +1107,7 @@ def _prewarm(spec):
                     pass
     if "zones" in w:
         for op in ops:
-            if op[0] in ("zi", "zoff", "inzone", "tz", "local"):
+            if op[0] in ("zi", "zoff", "inzone", "tz", "local", "zis"):
                 try:
                     P.DateTimeZoneProviders.tzdb[op[1]]
                 except Exception:  # noqa: BLE001
